@@ -674,6 +674,9 @@ def extract(build, exempt=None):
                     g.guard[nm] = (HELPER_IDIOM[0] + "-via-" + h, g.limits.get(HELPER_IDIOM[2], 0))
                     break
     g.bodies = bodies
+    g.balance = balance_paths(bodies)
+    g.deptharg = depth_arg_graph(bodies)
+    g.unbalanced = [p for p in g.balance if p[5] > p[4] or (p[3] != "error" and p[4] != p[5])]
     # exemptions with a written argument; each is re-validated on the current source
     g.bounded = {}
     g.exemption_failures = []
@@ -733,6 +736,20 @@ def extract(build, exempt=None):
     g.bad = [sorted(c) for c in sccs(left, lsucc) if len(c) > 1 or c[0] in lsucc.get(c[0], ())]
     g.bad.sort()
     return g
+
+
+def peg_specials(tree):
+    """names of the PEG combinators: first column of peg_specials[] in peg.c (the table peg_compile1 dispatches on)"""
+    with open(os.path.join(tree, "src/core/peg.c"), encoding="utf-8", errors="replace") as f:
+        src = strip_comments(f.read())
+    m = re.search(r"peg_specials\s*\[\s*\]\s*=\s*\{", src)
+    if not m:
+        raise ExtractError("peg_specials[] not found in peg.c")
+    body = src[m.end() - 1:match_brace(src, m.end() - 1)]
+    pairs = re.findall(r'\{\s*"((?:[^"\\\\]|\\\\.)*)"\s*,\s*(\w+)\s*\}', body)
+    if len(pairs) < 40:
+        raise ExtractError("peg_specials[]: only %d entries recognised" % len(pairs))
+    return pairs
 
 
 # ---------------------------------------------------------------------------------------------- Lean
@@ -797,6 +814,20 @@ def render(g, tree_desc="current tree"):
     cyc = find_cycle(g.bad[0], g.edges) if g.bad else []
     L.append("/-- a closed chain of non-guard functions when the translator found one ([] on a tree where every cycle is guarded) -/")
     L.append("abbrev unguardedCycle : List Nat := [%s]\n" % ", ".join(str(idx[n]) for n in cyc))
+    L.append("/-- depth counters with paired charge/release idioms: one entry per distinct path class through the listed\n"
+             "    functions (counter, function, case label / position, error exit?, charges, releases) -/")
+    L.append("abbrev balancePaths : List JanetModel.Depth.PathCount := [")
+    L.append(",\n".join('  ⟨"%s", "%s", "%s", %s, %d, %d⟩' % (t, f, (lab + ":" + kind).replace('"', "'"), "true" if kind == "error" else "false", c, r)
+                        for (t, f, lab, kind, c, r) in g.balance))
+    L.append("]\n")
+    da = g.deptharg
+    di = {n: i for i, n in enumerate(da["fns"])}
+    L.append("/-- marshal / unmarshal pass their depth as an argument (`flags`, charged by `flags + 1`): functions, and the\n"
+             "    call edges that do NOT charge.  Every cycle must charge, i.e. this graph must be acyclic (rank certificate). -/")
+    L.append("abbrev depthArgNames : List String := [%s]" % ", ".join('"%s"' % n for n in da["fns"]))
+    L.append("abbrev depthArgCg : JanetModel.Depth.CG := { n := %d, edges := [%s], guard := [] }"
+             % (len(da["fns"]), ", ".join("(%d, %d)" % (di[a], di[b]) for a, b in da["zero"])))
+    L.append("abbrev depthArgRank : List Nat := [%s]\n" % ", ".join(str(da["rank"].get(n, 0)) for n in da["fns"]))
     L.append("abbrev recursionGuard : Nat := %d" % g.limits["JANET_RECURSION_GUARD"])
     L.append("abbrev maxProtoDepth : Nat := %d" % g.limits.get("JANET_MAX_PROTO_DEPTH", 0))
     L.append("abbrev maxMacroExpand : Nat := %d" % g.limits.get("JANET_MAX_MACRO_EXPAND", 0))
@@ -822,3 +853,281 @@ if __name__ == "__main__":
         print("SCC", i, len(c), " ".join(("*" if n in g.guard else "") + n for n in c)[:3000])
     print("no body:", g.nobody)
     print("UNGUARDED:", g.bad)
+
+
+# ---------------------------------------------------------------------------------------------- counter balance
+# Depth counters with paired charge/release idioms.  For the listed functions every path through the body (per `case`
+# block of a switch, per branch, per loop iteration) is walked on the source text and the number of charges and releases
+# on it is counted.  Emitted into Gen/Depth.lean; Lean obligation `balanced`: no path releases more than it charged, and
+# every path that ends in a normal return / goto / end of function releases exactly what it charged.
+
+COUNTERS = [
+    # tag, functions, charge regex, release regex
+    ("peg-down1-up1", ["peg_rule"], r"\bdown1\s*\(", r"\bup1\s*\("),
+    ("peg-builder-depth", ["peg_compile1"], r"\bb\s*->\s*depth\s*--", r"\bb\s*->\s*depth\s*\+\+"),
+    ("compile-recursion-guard", ["janetc_value", "destructure_nested"], r"recursion_guard\s*--", r"recursion_guard\s*\+\+"),
+    ("gc-depth", ["janet_mark"], r"\bdepth\s*--", r"\bdepth\s*\+\+"),
+    ("vm-stackn", ["janet_call", "janet_continue_no_check"], r"janet_vm\s*\.\s*stackn\s*\+\+",
+     r"janet_vm\s*\.\s*stackn\s*--|janet_vm\s*\.\s*stackn\s*=\s*oldn\b"),
+]
+ERROR_EXIT = re.compile(r"\bjanet_panic\w*\s*\(|\bpeg_panic\s*\(|\bjanetc_c?error\s*\(|JANET_COMPILE_ERROR|\bjanet_exit\s*\(")
+
+
+def _skip_ws(t, i):
+    while i < len(t) and t[i] in " \t\r\n":
+        i += 1
+    return i
+
+
+def _paren(t, i):
+    """t[i]=='(' -> (inside, index after ')')"""
+    j = _after_parens(t, i)
+    return t[i + 1:j - 1], j
+
+
+def _parse_stmt(t, i):
+    i = _skip_ws(t, i)
+    if i >= len(t):
+        return None, i
+    if t[i] == "{":
+        j = match_brace(t, i)
+        return ("block", _parse_nodes(t[i + 1:j - 1])), j
+    m = re.match(r"(if|for|while|switch)\b\s*\(", t[i:])
+    if m:
+        kw = m.group(1)
+        head, j = _paren(t, i + m.end() - 1)
+        body, j = _parse_stmt(t, j)
+        if kw == "if":
+            k = _skip_ws(t, j)
+            if re.match(r"else\b", t[k:]):
+                els, j = _parse_stmt(t, k + 4)
+                return ("if", head, body, els), j
+            return ("if", head, body, None), j
+        if kw == "switch":
+            return ("switch", head, body[1] if body and body[0] == "block" else [body]), j
+        return ("loop", head, body), j
+    if re.match(r"do\b", t[i:]):
+        body, j = _parse_stmt(t, i + 2)
+        k = _skip_ws(t, j)
+        m2 = re.match(r"while\s*\(", t[k:])
+        if not m2:
+            raise ExtractError("do without while")
+        head, j = _paren(t, k + m2.end() - 1)
+        j = t.index(";", j) + 1
+        return ("loop", head, body), j
+    m = re.match(r"(case\b[^:;{}]*|default|[A-Za-z_]\w*)\s*:(?!:)", t[i:])
+    if m and not re.match(r"(return|goto|break|continue)\b", t[i:]):
+        return ("label", m.group(1).strip()), i + m.end()
+    # simple statement: up to ';' at nesting depth 0
+    j, depth = i, 0
+    while j < len(t):
+        c = t[j]
+        if c == '"' or c == "'":
+            k = j + 1
+            while k < len(t) and t[k] != c:
+                k += 2 if t[k] == "\\" else 1
+            j = k + 1
+            continue
+        if c in "([{":
+            depth += 1
+        elif c in ")]}":
+            depth -= 1
+        elif c == ";" and depth == 0:
+            return ("stmt", t[i:j + 1]), j + 1
+        j += 1
+    return ("stmt", t[i:]), len(t)
+
+
+def _parse_nodes(t):
+    nodes, i = [], 0
+    while True:
+        n, i = _parse_stmt(t, i)
+        if n is None:
+            break
+        nodes.append(n)
+    return nodes
+
+
+class _Walk:
+    def __init__(self, charge, release):
+        self.c, self.r = re.compile(charge), re.compile(release)
+        self.paths = []       # (label, kind, charges, releases)
+        self.label = "entry"
+
+    def cnt(self, text, st):
+        return (st[0] + len(self.c.findall(text)), st[1] + len(self.r.findall(text)))
+
+    def nodes(self, nodes, cur):
+        brk, cont = set(), set()
+        for n in nodes:
+            if not cur:
+                # unreachable tail (after return); labels make it reachable again only through the switch walker
+                if n[0] != "label":
+                    continue
+            cur, b, c = self.node(n, cur)
+            brk |= b
+            cont |= c
+        return cur, brk, cont
+
+    def node(self, n, cur):
+        k = n[0]
+        if k == "label":
+            return cur, set(), set()
+        if k == "stmt":
+            new = set(self.cnt(n[1], s) for s in cur)
+            txt = n[1]
+            if re.match(r"\s*break\s*;", txt):
+                return set(), new, set()
+            if re.match(r"\s*continue\s*;", txt):
+                return set(), set(), new
+            if ERROR_EXIT.search(txt) and not re.match(r"\s*(return|goto)\b", txt) and re.search(r"\b(janet_panic\w*|peg_panic|janet_exit)\s*\(", txt):
+                for s in new:
+                    self.paths.append((self.label, "error", s[0], s[1]))
+                return set(), set(), set()
+            m = re.match(r"\s*(return|goto)\b", txt)
+            if m:
+                for s in new:
+                    self.paths.append((self.label, "error" if self.in_error else m.group(1), s[0], s[1]))
+                return set(), set(), set()
+            return new, set(), set()
+        if k == "block":
+            return self.nodes(n[1], cur)
+        if k == "if":
+            c1 = set(self.cnt(n[1], s) for s in cur)
+            was = self.in_error
+            # a branch taken on an error condition: exits inside are error exits (counter is re-initialised by the next
+            # top-level entry; an early error can only make the guard fire sooner)
+            errb = bool(ERROR_EXIT.search(n[1])) or (n[2] is not None and self._has_error_call(n[2]))
+            self.in_error = was or errb
+            f1, b1, k1 = self.node(n[2], c1) if n[2] else (c1, set(), set())
+            self.in_error = was
+            if n[3] is not None:
+                f2, b2, k2 = self.node(n[3], c1)
+            else:
+                f2, b2, k2 = c1, set(), set()
+            return f1 | f2, b1 | b2, k1 | k2
+        if k == "loop":
+            c1 = set(self.cnt(n[1], s) for s in cur)
+            out = set(c1)
+            for s in c1:
+                f, b, c = self.node(n[2], {s}) if n[2] else ({s}, set(), set())
+                for e in f | c:
+                    if e != s:
+                        self.paths.append((self.label, "loop-iteration", e[0] - s[0], e[1] - s[1]))
+                out |= b
+            return out, set(), set()
+        if k == "switch":
+            c1 = set(self.cnt(n[1], s) for s in cur)
+            body = n[2]
+            out = set()
+            starts = [i for i, x in enumerate(body) if x[0] == "label" and (i == 0 or body[i - 1][0] != "label")]
+            outer = self.label
+            for i in starts:
+                names = []
+                j = i
+                while j < len(body) and body[j][0] == "label":
+                    names.append(body[j][1].replace("case ", ""))
+                    j += 1
+                if outer == "entry" or outer.endswith(":"):
+                    self.label = "/".join(names)[:60]
+                f, b, c = self.nodes(body[i:], set(c1))
+                out |= f | b
+                self.label = outer
+            return out, set(), set()
+        raise ExtractError("unknown node " + k)
+
+    def _has_error_call(self, node):
+        if node is None:
+            return False
+        if node[0] == "stmt":
+            return bool(re.search(r"\b(janet_panic\w*|peg_panic|janetc_c?error|janet_exit)\s*\(", node[1]))
+        if node[0] == "block":
+            return any(self._has_error_call(x) for x in node[1][:3])
+        return False
+
+    in_error = False
+
+
+def balance_paths(bodies):
+    """-> list of (tag, function, label, kind, charges, releases), deduplicated and sorted"""
+    out = []
+    for tag, funcs, ch, rel in COUNTERS:
+        for fn in funcs:
+            body = bodies.get(fn)
+            if body is None:
+                if fn == funcs[0]:
+                    raise ExtractError("balance check: function %s not found" % fn)
+                continue
+            if not re.search(ch, body):
+                raise ExtractError("balance check: %s no longer contains the charge idiom of %s" % (fn, tag))
+            w = _Walk(ch, rel)
+            nodes = _parse_nodes(body[1:-1])
+            fall, _, _ = w.nodes(nodes, {(0, 0)})
+            for s in fall:
+                w.paths.append(("end", "return", s[0], s[1]))
+            for p in sorted(set(w.paths)):
+                out.append((tag, fn) + p)
+    return out
+
+
+# ---------------------------------------------------------------------------------------------- depth passed as argument
+# marshal / unmarshal pass their depth as `flags`; a level is charged by passing `flags + 1`.  Every cycle of the
+# (un)marshal functions must contain at least one charging call, i.e. the graph of NON-charging calls must be acyclic.
+# Emitted as a second graph (no guards) with a rank certificate; Lean obligation `cg_depth_arg_charged`.
+
+_MARSH_FN = re.compile(r"^(un)?marshal_one(_\w+)?$|^janet_(un)?marshal_janet$")
+_LEAF_VALUE = re.compile(r"^\s*janet_wrap_(string|keyword|symbol|integer|number|nil|boolean)\s*\(|^\s*janet_c(string|keyword|symbol)v\s*\(")
+
+
+def depth_arg_graph(bodies):
+    fns = sorted(n for n, b in bodies.items() if b and _MARSH_FN.match(n))
+    if "marshal_one" not in fns or "unmarshal_one" not in fns:
+        raise ExtractError("depth-argument check: marshal_one / unmarshal_one not found")
+    edges = {}      # (a, b) -> charged? (False wins: one non-charging call site makes the edge non-charging)
+    sites = []
+    for a in fns:
+        body = bodies[a]
+        for m in re.finditer(r"\b((?:un)?marshal_one(?:_\w+)?)\s*\(", body):
+            b = m.group(1)
+            if b not in fns:
+                continue
+            inside, _ = _paren(body, m.end() - 1)
+            args = _split_top(inside)
+            if len(args) < 3:
+                continue
+            if b == "marshal_one" and _LEAF_VALUE.match(args[1]):
+                continue                      # a string / number is written without recursion
+            charged = bool(re.search(r"\+\s*1\b", args[-1]))
+            sites.append((a, b, args[-1].strip(), charged))
+            edges[(a, b)] = edges.get((a, b), True) and charged
+        for m in re.finditer(r"JanetMarshalContext\s+\w+\s*=\s*\{([^}]*)\}", body):
+            parts = _split_top(m.group(1))
+            if len(parts) < 3:
+                continue
+            b = "janet_unmarshal_janet" if a.startswith("un") else "janet_marshal_janet"
+            charged = bool(re.search(r"\+\s*1\b", parts[2]))
+            sites.append((a, b, parts[2].strip(), charged))
+            edges[(a, b)] = edges.get((a, b), True) and charged
+    zero = sorted(e for e, ch in edges.items() if not ch)
+    # rank by longest path over the zero edges
+    succ = {n: [] for n in fns}
+    for a, b in zero:
+        succ[a].append(b)
+    rank, state = {}, {}
+
+    def visit(n):
+        if state.get(n) == 1:
+            return 0                           # on a cycle: no valid rank exists, Lean will reject
+        if n in rank:
+            return rank[n]
+        state[n] = 1
+        r = 0
+        for w in succ[n]:
+            r = max(r, visit(w) + 1)
+        state[n] = 2
+        rank[n] = r
+        return r
+    for n in fns:
+        visit(n)
+    cyc = [c for c in sccs(fns, succ) if len(c) > 1 or c[0] in succ[c[0]]]
+    return dict(fns=fns, zero=zero, rank=rank, sites=sites, cycles=[sorted(c) for c in cyc], charged=sorted(e for e, ch in edges.items() if ch))
